@@ -31,3 +31,5 @@ def run(ctx: Ctx) -> None:
     ctx.do(C.rule_aff_avg)
     ctx.do(C.rule_excl_hook)
     ctx.do(rule_num_prescale)
+    ctx.do(TR.rule_alias_input)
+    ctx.do(C.rule_cfg_fwd)
